@@ -22,7 +22,7 @@ structure Inv (v0 : Int) (s : Sys) : Prop where
   flipsVer : ∀ (k : Nat) (p : Nat × Int), s.flips[k]? = some p → p.2 = v0 + (k : Int)
 
 /-- histories in which no install is taken back (by crash recovery or by the transaction's own failed phase 2) -/
-def NoRecover (ops : List Op) : Prop := ∀ o ∈ ops, ∀ t, o ≠ Op.recover t ∧ o ≠ Op.restore t
+def NoRecover (ops : List Op) : Prop := ∀ o ∈ ops, (∀ t, o ≠ Op.recover t ∧ o ≠ Op.restore t) ∧ o ≠ Op.lose
 
 @[simp] theorem setTxn_txns (s : Sys) (t k : Nat) (x : Txn) : (s.setTxn t x).txns k = if k = t then x else s.txns k := rfl
 @[simp] theorem setTxn_h (s : Sys) (t : Nat) (x : Txn) : (s.setTxn t x).h = s.h := rfl
@@ -34,10 +34,11 @@ theorem held_lock {s : Sys} {t : Nat} (h : held s t true = true) : s.lock = some
   simp only [Bool.not_true, Bool.false_or, Bool.and_eq_true, Bool.not_eq_true', beq_iff_eq] at h
   exact ⟨h.2, h.1⟩
 
-theorem inv_step (v0 : Int) (s : Sys) (o : Op) (hno : ∀ t, o ≠ Op.recover t ∧ o ≠ Op.restore t) (inv : Inv v0 s) : Inv v0 (step true s o) := by
+theorem inv_step (v0 : Int) (s : Sys) (o : Op) (hno : (∀ t, o ≠ Op.recover t ∧ o ≠ Op.restore t) ∧ o ≠ Op.lose) (inv : Inv v0 s) : Inv v0 (step true s o) := by
   cases o with
-  | recover t => exact absurd rfl (hno t).1
-  | restore t => exact absurd rfl (hno t).2
+  | recover t => exact absurd rfl (hno.1 t).1
+  | restore t => exact absurd rfl (hno.1 t).2
+  | lose => exact absurd rfl hno.2
   | crash t =>
     simp only [step]
     refine ⟨?_, ?_, ?_, ?_, inv.ver, inv.flipsVer⟩
@@ -200,7 +201,7 @@ theorem inv_step (v0 : Int) (s : Sys) (o : Op) (hno : ∀ t, o ≠ Op.recover t 
     split
     · rename_i hc
       simp only [Bool.and_eq_true, Bool.not_eq_true'] at hc
-      obtain ⟨hh, hinst⟩ := hc
+      obtain ⟨⟨hh, hinst⟩, _⟩ := hc
       obtain ⟨hl, _⟩ := held_lock hh
       have hv : (if s.h.inactive = 0 then { s.h with wip := 0 } else s.h.clearInactive).version = s.h.version := by
         split
@@ -291,5 +292,139 @@ theorem C37_disciplined_example :
     (run true two [.lock 0, .lock 1, .get 0, .get 1, .reserve 0, .reserve 1, .stage 0, .stage 1, .flip 0, .flip 1,
                    .unlock 0, .lock 1, .get 1, .reserve 1, .stage 1, .flip 1]).flips = [(0, 1)] := by
   decide +kernel
+
+/-! ## The reservation is a claim that holds even without the node lock -/
+
+/-- a live claim on the node: both physical slots in use, the reservation is not expired, and it was made by `owner` -/
+structure Claimed (s : Sys) (owner : Nat) : Prop where
+  both : s.h.bothInUse = true
+  live : s.h.expiredInactive s.now s.hour = false
+  nz : s.h.inactive ≠ 0
+
+/-- every transaction other than the owner comes after the claim: it has read, reserved, staged and logged nothing
+yet, and the id it will allocate is not the claimed one -/
+def Latecomers (s : Sys) (owner : Nat) (h0 : Handle) : Prop :=
+  ∀ k, k ≠ owner → ((s.txns k).got = none ∨ (s.txns k).got = some h0) ∧ (s.txns k).img = none ∧ (s.txns k).staged = false ∧
+    s.plog k = none ∧ (s.txns k).fresh ≠ h0.inactive
+
+theorem reserveOne_claimed (now hour : Int) (f : UUID) (h : Handle) (v : Int) (hb : h.bothInUse = true)
+    (he : h.expiredInactive now hour = false) : reserveOne now hour f h v = none := by
+  unfold reserveOne
+  split
+  · rfl
+  · simp [he, Handle.allocate, hb]
+
+theorem claim_step (owner : Nat) (s : Sys) (o : Op) (ho : o.txn ≠ some owner) (hc : Claimed s owner)
+    (hl : Latecomers s owner s.h) :
+    (step false s o).h = s.h ∧ (step false s o).now = s.now ∧ (step false s o).hour = s.hour ∧
+      Latecomers (step false s o) owner s.h := by
+  have upd : ∀ (k : Nat) (x : Txn) (lk : Option Nat), k ≠ owner →
+      ((x.got = none ∨ x.got = some s.h) ∧ x.img = none ∧ x.staged = false ∧ x.fresh = (s.txns k).fresh) →
+      Latecomers { (s.setTxn k x) with lock := lk } owner s.h := by
+    intro k x lk hk hx j hj
+    by_cases e : j = k
+    · subst e
+      simp only [setTxn_txns, ↓reduceIte]
+      exact ⟨hx.1, hx.2.1, hx.2.2.1, (hl j hj).2.2.2.1, by rw [hx.2.2.2]; exact (hl j hj).2.2.2.2⟩
+    · simp only [setTxn_txns, e, ↓reduceIte]
+      exact hl j hj
+  cases o with
+  | lose => exact ⟨rfl, rfl, rfl, hl⟩
+  | lock t =>
+    have ht : t ≠ owner := fun e => ho (by rw [e]; rfl)
+    simp only [step]
+    split
+    · exact ⟨rfl, rfl, rfl, hl⟩
+    · split
+      · exact ⟨rfl, rfl, rfl, upd t _ _ ht ⟨.inl rfl, rfl, rfl, rfl⟩⟩
+      · exact ⟨rfl, rfl, rfl, hl⟩
+  | unlock t =>
+    have ht : t ≠ owner := fun e => ho (by rw [e]; rfl)
+    simp only [step]
+    split
+    · exact ⟨rfl, rfl, rfl, upd t _ _ ht ⟨.inl rfl, rfl, rfl, rfl⟩⟩
+    · exact ⟨rfl, rfl, rfl, hl⟩
+  | get t =>
+    have ht : t ≠ owner := fun e => ho (by rw [e]; rfl)
+    simp only [step]
+    split
+    · exact ⟨rfl, rfl, rfl, upd t _ s.lock ht ⟨.inr rfl, (hl t ht).2.1, (hl t ht).2.2.1, rfl⟩⟩
+    · exact ⟨rfl, rfl, rfl, hl⟩
+  | reserve t =>
+    have ht : t ≠ owner := fun e => ho (by rw [e]; rfl)
+    simp only [step]
+    split
+    · split
+      · exact ⟨rfl, rfl, rfl, hl⟩
+      · rename_i g hg
+        have : g = s.h := by
+          rcases (hl t ht).1 with e | e
+          · rw [e] at hg; cases hg
+          · rw [e] at hg; exact (Option.some.inj hg).symm
+        rw [this, reserveOne_claimed _ _ _ _ _ hc.both hc.live]
+        exact ⟨rfl, rfl, rfl, hl⟩
+    · exact ⟨rfl, rfl, rfl, hl⟩
+  | stage t =>
+    have ht : t ≠ owner := fun e => ho (by rw [e]; rfl)
+    simp only [step, (hl t ht).2.1]
+    split <;> exact ⟨rfl, rfl, rfl, hl⟩
+  | logPre t =>
+    have ht : t ≠ owner := fun e => ho (by rw [e]; rfl)
+    simp only [step, (hl t ht).2.1]
+    split <;> exact ⟨rfl, rfl, rfl, hl⟩
+  | flip t =>
+    have ht : t ≠ owner := fun e => ho (by rw [e]; rfl)
+    simp only [step, (hl t ht).2.2.1, Bool.and_false, Bool.false_and, Bool.false_eq_true, ↓reduceIte]
+    exact ⟨trivial, trivial, trivial, hl⟩
+  | undo t =>
+    have ht : t ≠ owner := fun e => ho (by rw [e]; rfl)
+    have h1 : (s.h.inactive == 0) = false := by simpa using hc.nz
+    have h2 : (s.h.inactive == (s.txns t).fresh) = false := by
+      simpa using fun e => (hl t ht).2.2.2.2 e.symm
+    simp only [step, h1, h2, Bool.or_self, Bool.and_false, Bool.false_eq_true, ↓reduceIte]
+    exact ⟨trivial, trivial, trivial, hl⟩
+  | crash t =>
+    have ht : t ≠ owner := fun e => ho (by rw [e]; rfl)
+    simp only [step]
+    exact ⟨rfl, rfl, rfl, upd t _ s.lock ht ⟨(hl t ht).1, (hl t ht).2.1, (hl t ht).2.2.1, rfl⟩⟩
+  | recover t =>
+    have ht : t ≠ owner := fun e => ho (by rw [e]; rfl)
+    simp only [step, (hl t ht).2.2.2.1]
+    split <;> first | exact ⟨rfl, rfl, rfl, hl⟩ | exact ⟨trivial, trivial, trivial, hl⟩
+  | restore t =>
+    have ht : t ≠ owner := fun e => ho (by rw [e]; rfl)
+    simp only [step, (hl t ht).2.2.2.1]
+    split <;> first | exact ⟨rfl, rfl, rfl, hl⟩ | exact ⟨trivial, trivial, trivial, hl⟩
+
+/-- **The reservation is a claim** (`AllocateID` + the version/in-use test of `commitUpdatedNodes` + "a reservation is
+released by its owner only"): while a claim is live, NO operation sequence of transactions that come after it — any
+number of them, in any interleaving, WITH OR WITHOUT the node lock (the lock service may even forget the lock) —
+changes the node's handle: they cannot reserve, flip or clear it. Only the owner (or, after a crash, recovery; or the
+one-hour expiry) moves the node on. This is what makes a lost lock between phase 1 and phase 2 harmless. -/
+theorem C37_claim_respected (owner : Nat) (ops : List Op) (s : Sys) (ho : ∀ o ∈ ops, o.txn ≠ some owner)
+    (hc : Claimed s owner) (hl : Latecomers s owner s.h) : (run false s ops).h = s.h := by
+  unfold run
+  induction ops generalizing s with
+  | nil => rfl
+  | cons o t ih =>
+    simp only [List.foldl_cons]
+    obtain ⟨e1, e2, e3, l'⟩ := claim_step owner s o (ho o (List.mem_cons_self ..)) hc hl
+    have hc' : Claimed (step false s o) owner := ⟨by rw [e1]; exact hc.both, by rw [e1, e2, e3]; exact hc.live, by rw [e1]; exact hc.nz⟩
+    rw [ih (step false s o) (fun o' ho' => ho o' (List.mem_cons_of_mem _ ho')) hc' (by rw [e1]; exact l'), e1]
+
+/-- a claimed system: transaction 0 has reserved id 10 on version 1 of node 1; every other transaction comes later -/
+def claimed : Sys :=
+  { h := { lid := 1, idA := 1, idB := 10, version := 1, wip := 1000000000 }, blob := fun k => k == 1 || k == 10,
+    txns := fun k => { readVersion := 1, fresh := 10 + k } }
+
+/-- the hypotheses of `C37_claim_respected` are satisfiable, by a state the protocol itself reaches -/
+example : Claimed claimed 0 ∧ Latecomers claimed 0 claimed.h := by
+  refine ⟨⟨by decide +kernel, by decide +kernel, by decide +kernel⟩, ?_⟩
+  intro k hk
+  refine ⟨.inl rfl, rfl, rfl, rfl, ?_⟩
+  show 10 + k ≠ 10
+  omega
+
+example : (run true two [.lock 0, .get 0, .reserve 0, .stage 0]).h = claimed.h := by decide +kernel
 
 end Sop.C37
